@@ -538,6 +538,36 @@ pub fn reversed(i: &Input) -> Input {
     }
 }
 
+/// An equal input in another REPRESENTATION: the same coordinates in the same order, but every
+/// buffer re-allocated with a seeded amount of spare capacity (or none at all).  Equality of
+/// geometries does not see capacity, so results must not either.
+pub fn respared(i: &Input, seed: u64) -> Input {
+    let mut rng = Rng::stream(seed, "c20-respare");
+    fn spare<T: Clone>(v: &[T], rng: &mut Rng) -> Vec<T> {
+        let extra = match rng.below(4) {
+            0 => 0,
+            1 => 1 + rng.below(7),
+            2 => v.len() + rng.below(9),
+            _ => 64 + rng.below(960),
+        };
+        let mut o = Vec::with_capacity(v.len() + extra);
+        o.extend_from_slice(v);
+        o
+    }
+    let ls = |l: &LineString<f64>, rng: &mut Rng| LineString::new(spare(&l.0, rng));
+    let mp = |m: &MultiPolygon<f64>, rng: &mut Rng| {
+        let polys: Vec<Polygon<f64>> = m.0.iter().map(|p| {
+            let ints: Vec<LineString<f64>> = p.interiors().iter().map(|r| ls(r, rng)).collect();
+            Polygon::new(ls(p.exterior(), rng), spare(&ints, rng))
+        }).collect();
+        MultiPolygon::new(spare(&polys, rng))
+    };
+    let a = mp(&i.a, &mut rng);
+    let b = mp(&i.b, &mut rng);
+    let lss: Vec<LineString<f64>> = i.mls.0.iter().map(|l| ls(l, &mut rng)).collect();
+    Input { a, b, mls: MultiLineString::new(spare(&lss, &mut rng)), pts: MultiPoint::new(spare(&i.pts.0, &mut rng)), lines: spare(&i.lines, &mut rng), a_valid: i.a_valid, segments: i.segments }
+}
+
 /// Overwrites the coordinates of `dst` with those of `src` IN PLACE (same structure required):
 /// every buffer keeps its address, only the contents change.  Returns false if the structures differ.
 pub fn overwrite_in_place(dst: &mut Input, src: &Input) -> bool {
